@@ -299,6 +299,18 @@ def h_fibre_coefficients(ctx, with_slope):
         else:
             d_f = (f / fref) ** 2 * disp
         ctx.prove(f'beta2 = -(c/f)^2 D(f) / (2 pi c) at {f * 1e-12:.1f} THz', approx(b2, -((c / f) ** 2 * d_f) / (2 * math.pi * c), 1e-12))
+    # nonlinear coefficient: the fibre is declared by its gamma (effective area null, as the library leaves it for such types)
+    # or by its effective area; values forked over a few representative ones (gamma_scaling involves a mode-overlap exponential)
+    from math import pi
+    how = ctx.choice('fibre declared by', ['gamma', 'effective_area'])
+    val = ctx.choice('declared value', [0.001, 0.002, 1.27e-3] if how == 'gamma' else [50e-12, 83e-12, 125e-12])
+    prm = dict(params)
+    prm.update({'gamma': val, 'effective_area': None} if how == 'gamma' else {'effective_area': val})
+    _, e2 = build_elements([{'uid': 'f', 'type': 'Fiber', 'type_variety': 'SSMF', 'params': prm}])
+    g_ref = float(np.asarray(e2['f'].gamma(np.array([fref]))).reshape(-1)[0])
+    want = val if how == 'gamma' else 2 * pi * 2.6e-20 / ((c / fref) * val)
+    ctx.prove('gamma at the reference frequency is the declared one / follows from the declared effective area',
+              abs(g_ref - want) <= 1e-9 * want, info=dict(how=how, declared=val, got=g_ref, want=want))
     cd = fiber.chromatic_dispersion(fref)
     cd = cd if not isinstance(cd, np.ndarray) else cd.reshape(-1)[0]
     ctx.prove('accumulated CD at the reference frequency = dispersion x length', approx(cd, disp * 80e3, 1e-9))
